@@ -68,6 +68,9 @@ impl InlineCache {
             if !crate::verif::inline_caches_on() {
                 return;
             }
+            if !crate::verif::prototype_entries_on() && slot.attributes.contains(crate::object::shape::slot::SlotAttributes::PROTOTYPE) {
+                return;
+            }
             crate::verif::ic_event(|| {
                 format!(
                     "set {:x} {:x} {} {}",
